@@ -11,7 +11,7 @@ from .tensor_names import is_adc_amplitude, is_t_amplitude, tensor_names
 from sympy.physics.secondquant import (
     F, Fd, FermionicOperator, NO
 )
-from sympy import S, Add, Mul, Pow, sqrt, Symbol
+from sympy import S, Add, Float, Mul, Pow, sqrt, Symbol
 
 from itertools import product
 
@@ -168,6 +168,8 @@ def import_from_sympy_latex(expr_string: str,
         # import an individial object
         if obj_str.isnumeric():  # prefactor
             return int(obj_str)
+        elif obj_str.replace(".", "", 1).isnumeric():  # float prefactor
+            return Float(obj_str)
         elif obj_str.startswith("\\sqrt{"):  # sqrt{x} prefactor
             return sqrt(int(obj_str[:-1].replace("\\sqrt{", "", 1)))
         elif obj_str.startswith("\\delta_"):  # KroneckerDelta
